@@ -27,6 +27,7 @@ SEEDS = {
     'C03-exp2-saved-exp1': ('C03', 'json_number'), 'C02-surrogate-pair2-saved-pair1': ('C02', 'json_string'), 'C07-ubjson-int16-short-read': ('C07', 'ubjson_read'), 'C09-is-integer-uint64-sign': ('C09', 'is_integer'),
     'C10-cbor-bigdec-depth-leak': ('C10', 'cbor_bigdec'), 'C08-cbor-bigdec-scale-assign': ('C08', 'cbor_bigdec'),
     'C05-csv-subfields-ignored-empty-last': ('C05', 'csv_parse'),
+    'C18-mcolumns-replay-uint64-as-int64': ('C18', 'csv_columns'), 'C05-utf8-to-codepoint-end-off-by-one': ('C05', 'utf8,json_escape'),
     'C03-fals-cursor-mode': ('C03', 'json_literals'), 'C04-grisu-boundary-shift': ('C04', 'grisu'), 'C10-source-reader-claimed-length': ('C10', 'source_reader'),
 }
 only = sys.argv[1:]
